@@ -248,7 +248,11 @@ func Gen(r *rand.Rand, o GenOpts) *Prog {
 					cl := genCall(r, i+1, n)
 					t.Cmds = append(t.Cmds, Cmd{Kind: "call", Call: &cl})
 				case k == 8 || i == n-1:
-					t.Cmds = append(t.Cmds, Cmd{Kind: "dshell"})
+					dc := Cmd{Kind: "dshell"}
+					if r.Intn(4) == 0 {
+						dc.Exit = 5 // a failing deferred command: ignored, and it must not leak into EXIT_CODE
+					}
+					t.Cmds = append(t.Cmds, dc)
 					sawDefer = true
 				default:
 					cl := genCall(r, i+1, n)
@@ -428,11 +432,14 @@ func (p *Prog) Taskfile() map[string]any {
 			case "call":
 				cmds = append(cmds, p.callYAML(i, m, *c.Call))
 			case "dshell":
+				ds := fmt.Sprintf("printf '%%s\\n' 'D|%s|%d|{{.V}}|{{.EXIT_CODE}}'", self, k)
 				if p.viaEnv(i) {
-					cmds = append(cmds, map[string]any{"defer": fmt.Sprintf("printf '%%s\\n' \"D|K%dv$E|%d|$E|{{.EXIT_CODE}}\"", i, k)})
-				} else {
-					cmds = append(cmds, map[string]any{"defer": fmt.Sprintf("printf '%%s\\n' 'D|%s|%d|{{.V}}|{{.EXIT_CODE}}'", self, k)})
+					ds = fmt.Sprintf("printf '%%s\\n' \"D|K%dv$E|%d|$E|{{.EXIT_CODE}}\"", i, k)
 				}
+				if c.Exit != 0 {
+					ds += fmt.Sprintf("; exit %d", c.Exit)
+				}
+				cmds = append(cmds, map[string]any{"defer": ds})
 			case "dcall":
 				cmds = append(cmds, map[string]any{"defer": p.callYAML(i, m, *c.Call)})
 			}
@@ -628,7 +635,7 @@ func Directed(r *rand.Rand) *Prog {
 	case 3: // a nested task with its own defers fails: EXIT_CODE at both levels
 		p.Tasks = []Task{
 			tk("always", nil, Cmd{Kind: "dshell"}, callv(1, nil), sh(0)),
-			tk("always", nil, Cmd{Kind: "dshell"}, sh(0), sh(code), sh(0)),
+			tk("always", nil, Cmd{Kind: "dshell"}, Cmd{Kind: "dshell", Exit: 5}, Cmd{Kind: "dshell"}, sh(0), sh(code), sh(0)),
 		}
 		if r.Intn(2) == 0 {
 			p.Tasks[0] = tk("always", []Call{{Task: 1}}, Cmd{Kind: "dshell"}, sh(0))
@@ -682,7 +689,12 @@ func Directed(r *rand.Rand) *Prog {
 // DirectedCyclic: small programs whose cycle is certainly reached and spins until the call limit ends
 // it: through deps, through task: commands, through both, self-reference, two- and three-task
 // cycles, with commands before the recursive reference (so every round prints) and none failing.
-func DirectedCyclic(r *rand.Rand) *Prog {
+func DirectedCyclic(r *rand.Rand) *Prog { return DirectedCyclicShape(r, r.Intn(7)) }
+
+// NCyclicShapes is the number of shapes DirectedCyclicShape knows.
+const NCyclicShapes = 7
+
+func DirectedCyclicShape(r *rand.Rand, shape int) *Prog {
 	p := &Prog{}
 	back := func(viaDep bool, t int) Task {
 		if viaDep {
@@ -690,7 +702,13 @@ func DirectedCyclic(r *rand.Rand) *Prog {
 		}
 		return tk("always", nil, sh(0), callv(t, nil))
 	}
-	switch r.Intn(6) {
+	switch shape % NCyclicShapes {
+	case 6: // a cycle with fan-out: several branches are in flight when the call limit is reached
+		p.Tasks = []Task{
+			tk("always", []Call{{Task: 1}, {Task: 2}}, sh(0)),
+			tk("always", []Call{{Task: 0}}, sh(0)),
+			tk("always", []Call{{Task: 0}}, sh(0)),
+		}
 	case 0: // self-dependency
 		p.Tasks = []Task{tk("always", []Call{{Task: 0}}, sh(0))}
 	case 1: // self-call
